@@ -21,6 +21,7 @@ from decimal import Decimal
 from typing import Iterable, List, Sequence
 
 import numpy as np
+import sympy
 
 import xir
 
@@ -116,6 +117,9 @@ def from_xir(xir_prog: xir.Program) -> Program:
                     for p in op.params:
                         if isinstance(p, Decimal):
                             params.append(float(p))
+                        elif isinstance(p, str):
+                            # name of a free parameter or of a measured subsystem
+                            params.append(sympy.sympify(p))
                         elif isinstance(p, Iterable):
                             params.append(np.array(_listr(p)))
                         else:
